@@ -64,3 +64,10 @@ package fs
 //@   opt auto-counters 1
 //@   prop C16
 
+
+// C20 / C09: the real file system's directory cache and watch table are shared by all resolver/bundler goroutines.
+//@ protect fs-entries-cache C20 C09: type=realFS ; fields=entries ; mutex=entriesMutex ; in=fs
+// (no rule for realFS.watchData: the field is tested for nil before the lock is taken - the map header never changes
+// after construction - and WatchData() walks it after the build has ended; a field-level lock rule would flag both.)
+//@ protect accessed-entries C20 C09: type=accessedEntries ; fields=wasPresent,allEntries ; mutex=mutex ; in=fs
+//@ protect entry-stat C20: type=Entry ; fields=kind,needStat,symlink ; mutex=mutex ; in=fs
